@@ -56,7 +56,10 @@ func (c *compression) compress(req *http.Request, resp *http.Response) bool {
 		return false
 	}
 
-	if c.alreadyGziped(resp) {
+	// A response which already carries a content coding (gzip or any other)
+	// is left as it is: compressing it again and labelling it "gzip" would
+	// hide the original coding from the client.
+	if resp.Header.Get(keyContentEncoding) != "" || c.alreadyGziped(resp) {
 		return false
 	}
 
